@@ -40,6 +40,8 @@ pub enum Action {
     Clear(usize),
     DropBuf(usize),
     DropPool,
+    /// Try to create a further pool while the kernel refuses the registration (EEXIST: group id in use).
+    NewPoolRefused,
 }
 
 pub struct LifeWorld {
@@ -57,11 +59,12 @@ pub struct LifeWorld {
     violations: Vec<Violation>,
     history: Vec<String>,
     reads: usize,
+    refused_done: bool,
 }
 
 impl LifeWorld {
     pub fn new(cases: std::rc::Rc<Vec<Case>>) -> LifeWorld {
-        LifeWorld { cases, case: None, ring: None, sq: None, fd: None, pool: None, bufs: (0..NBUFS).map(|_| None).collect(), owns: vec![None; NBUFS], table: Vec::new(), violations: Vec::new(), history: Vec::new(), reads: 0 }
+        LifeWorld { cases, case: None, ring: None, sq: None, fd: None, pool: None, bufs: (0..NBUFS).map(|_| None).collect(), owns: vec![None; NBUFS], table: Vec::new(), violations: Vec::new(), history: Vec::new(), reads: 0, refused_done: false }
     }
 
     fn bad(&mut self, sig: &str, msg: String) {
@@ -291,6 +294,9 @@ impl World for LifeWorld {
         if self.pool.is_some() {
             v.push((Action::DropPool, 0));
         }
+        if !self.refused_done {
+            v.push((Action::NewPoolRefused, 0));
+        }
         v
     }
 
@@ -328,6 +334,28 @@ impl World for LifeWorld {
                 let p = self.pool.take();
                 talloc::track(|| drop(p));
             }
+            Action::NewPoolRefused => {
+                self.refused_done = true;
+                let log_before = simk::with(|k| {
+                    k.fail_register.insert(REGISTER_PBUF_RING, libc::EEXIST);
+                    k.log.len()
+                });
+                let sq = self.sq.as_ref().unwrap().clone();
+                let r = talloc::track(|| ReadBufPool::new(sq, 2, 8));
+                simk::with(|k| {
+                    k.fail_register.remove(&REGISTER_PBUF_RING);
+                });
+                if r.is_ok() {
+                    self.bad("refused-pool-created", "the kernel refused to register the buffer ring, ReadBufPool::new returned a pool all the same".into());
+                }
+                talloc::track(|| drop(r));
+                // A pool that was never registered has nothing to unregister: whatever a10 unregisters now
+                // belongs to somebody else (a live pool with that group id).
+                let unregs: Vec<i32> = simk::with(|k| k.log[log_before..].iter().filter_map(|e| if let simk::Event::Register { opcode, ret, .. } = e { if *opcode == UNREGISTER_PBUF_RING { Some(*ret) } else { None } } else { None }).collect());
+                if !unregs.is_empty() {
+                    self.bad("unregister-after-refused-registration", format!("after the kernel refused the registration of a new buffer ring a10 issued {} unregistration(s) (answers {unregs:?}): with the group id in use that takes the buffers of a live pool away from the kernel", unregs.len()));
+                }
+            }
         }
         self.check();
     }
@@ -341,7 +369,7 @@ impl World for LifeWorld {
             return 0;
         }
         let offered = self.offered();
-        crate::report::hash_str(&format!("{:?}{:?}{:?}{:?}{}{:?}", self.case, self.pool.is_some(), self.bufs.iter().map(|b| b.is_some()).collect::<Vec<_>>(), self.owns, self.reads, offered))
+        crate::report::hash_str(&format!("{:?}{:?}{:?}{:?}{}{:?}{}", self.case, self.pool.is_some(), self.bufs.iter().map(|b| b.is_some()).collect::<Vec<_>>(), self.owns, self.reads, offered, self.refused_done))
     }
 
     fn observation(&self) -> u64 {
